@@ -99,6 +99,12 @@ def Write.effective (st : Store) : Write → Bool
   | .delScheduled a => st.scheduled.contains a
   | _ => true
 
+/-- Sub-second part (ms) of the creation time ZooKeeper stamps on a record the master creates in
+    virtual second `now`: the harness's store registers presence nodes at `+200` and lets every other
+    write happen at `+500`, so that restart detection is exercised with creation times that differ
+    within one second. -/
+def recStampMs : Int := 500
+
 /-- One storage write at time `now` (seconds).  `zkutils.put` = create, or set on an existing node
     (a set never changes ctime); creating a record creates the missing parent node. -/
 def Store.apply (now : Int) (st : Store) : Write → Store
@@ -113,7 +119,7 @@ def Store.apply (now : Int) (st : Store) : Write → Store
     if st.hasRec s a then
       { st with recs := st.recs.map (fun r => if r.srv = s ∧ r.app = a then { r with identity := i, count := n, expires := e } else r) }
     else
-      { st with recs := st.recs ++ [⟨s, a, i, n, e, now * 1000⟩],
+      { st with recs := st.recs ++ [⟨s, a, i, n, e, now * 1000 + recStampMs⟩],
                 pnodes := if st.hasNode s then st.pnodes else st.pnodes ++ [⟨s, none⟩] }
   | .putFinished a h o w =>
     { st with finished := st.finished.filter (fun f => f.app ≠ a) ++ [⟨a, h, o, w⟩] }
